@@ -777,6 +777,25 @@ def m1_m4_scenes_image(ctx: Any, prog: Program) -> None:
         if isinstance(k, ast.Call) and (dotted(k.func) or '').split('.')[-1] == 'attrgetter' and len(k.args) == 1 and isinstance(k.args[0], ast.Constant):
             return 'checksum' if k.args[0].value == 'checksum' else f'attribute {k.args[0].value}'
         return 'unknown'
+    # the summary of an entry is what its scene says about itself: Entry.from_scene takes duration / last speak / sounds from the scene's own
+    # methods (which the readers of a scene use as well); a summary worked out separately is a second definition that can disagree
+    fsn = mod.methods('Entry').get('from_scene')
+    if fsn is None:
+        ctx.shape('C20.M4', False, mod, sf, 'Entry.from_scene not found', func='Entry.from_scene', text='summary from the scene')
+    else:
+        sc_param = fsn.args.args[-1].arg
+        want_src = {'duration_ms': 'duration', 'last_speak_ms': 'duration', 'sounds': 'used_sounds'}
+        ctor = [c for c in ast.walk(fsn) if isinstance(c, ast.Call) and any(k.arg in want_src for k in c.keywords)]
+        ctx.shape('C20.M4', len(ctor) == 1, mod, fsn, 'Entry.from_scene builds the entry with duration_ms / last_speak_ms / sounds keywords', func='Entry.from_scene', text='summary from the scene')
+        for c in ctor:
+            for k in c.keywords:
+                if k.arg in want_src:
+                    calls_ = [x for x in ast.walk(k.value) if isinstance(x, ast.Call) and isinstance(x.func, ast.Attribute) and isinstance(x.func.value, ast.Name) and x.func.value.id == sc_param and x.func.attr == want_src[k.arg]]
+                    ctx.shape('C20.M4', bool(calls_), mod, k.value, f'`{k.arg}` is computed as `{U(k.value)[:60]}`, not from {sc_param}.{want_src[k.arg]}(): whether it agrees with what the scene reports is not decided here',
+                              func='Entry.from_scene', text=f'{k.arg} taken from scene.{want_src[k.arg]}()')
+                    if k.arg == 'last_speak_ms' and calls_:
+                        ctx.check('C20.M4', any(dotted(a) == 'EventType.Speak' for a in calls_[0].args) or any(dotted(kw.value) == 'EventType.Speak' for kw in calls_[0].keywords), mod, k.value,
+                                  'last_speak_ms must be the duration of the Speak events only', func='Entry.from_scene', text='last_speak_ms filtered to Speak events')
     sort = [n for n in walk_no_nested(sf) if (isinstance(n, ast.Expr) and isinstance(n.value, ast.Call) and dotted(n.value.func) == f'{lst}.sort')
             or (isinstance(n, ast.Assign) and dotted(n.targets[0]) == lst and isinstance(n.value, ast.Call) and dotted(n.value.func) == 'sorted' and n.value.args and dotted(n.value.args[0]) == lst)]
     sort = [n for n in sort if n.lineno < table[0].lineno]
@@ -1433,6 +1452,7 @@ def m5_tables(ctx: Any, prog: Program) -> None:
 
 
 MUTANTS: List[Dict[str, Any]] = [
+    {'id': 'last_speak_unfiltered', 'file': 'choreo.py', 'find': "            last_speak_ms=round(scene.duration(EventType.Speak) * 1000.0),", 'replace': "            last_speak_ms=round(scene.duration() * 1000.0),", 'expect': 'C20.M4'},
     {'id': 'snd_range_six_decimals', 'file': 'sndscript.py', 'find': "        return f'{low!s}, {high!s}'", 'replace': "        return f'{low:.6f}, {high:.6f}'", 'expect': 'C20.M2'},
     {'id': 'ok_snd_range_str_calls', 'file': 'sndscript.py', 'find': "        return f'{low!s}, {high!s}'", 'replace': "        return str(low) + ', ' + str(high)", 'expect': None},
     {'id': 'gender_token_nested_under_combined', 'file': 'choreo.py', 'find': "            if self.use_gender_token:\n                file.write(f'{indent} cc_combinedusesgender\\n')", 'replace': "            if self.use_combined_file and self.use_gender_token:\n                file.write(f'{indent} cc_combinedusesgender\\n')", 'expect': 'C20.M2'},
